@@ -122,7 +122,7 @@ def project(lines: list[str], keep: dict) -> list[str]:
     out = []
     for l in lines:
         pre = l.split(" ", 1)[0]
-        if pre == "EV":
+        if pre in ("EV", "EVN"):
             out.append(l)
         elif pre in keep:
             f = keep[pre]
